@@ -339,6 +339,17 @@ void vprop_case (VChoices *c, VResult *r)
           if (ps[f].vars[k].kind == VK_CONST && ps[f].ins[q].op->ssz[j] != ps[f].vars[k].size) inline_const[f][k] = 0;
         }
     }
+    /* known finding C02-const-two-lane-sizes: a literal operand shares the slot of an existing constant of equal value and size, so
+       printing one of two equal-valued constants inline merges them in the parsed program, and if they are used with different lane
+       sizes the shared-load defect shows there and not in the API twin.  Kept out by construction: such constants stay declared. */
+    if (v_excluded ("const-two-lane-sizes")) {
+      int q, k2;
+      for (q = 0; q < ps[f].nvars; q++) {
+        if (ps[f].vars[q].kind != VK_CONST || !inline_const[f][q]) continue;
+        for (k2 = 0; k2 < ps[f].nvars; k2++)
+          if (k2 != q && ps[f].vars[k2].kind == VK_CONST && ps[f].vars[k2].size == ps[f].vars[q].size && ps[f].vars[k2].cval == ps[f].vars[q].cval) { inline_const[f][q] = 0; break; }
+      }
+    }
     h ^= ps_hash (&ps[f]) * (uint64_t) (f + 1);
   }
   memset (&o, 0, sizeof o);
